@@ -207,7 +207,7 @@ Fixpoint delimit_go (ddt : bool) (db : bytes) (ti : option N) (i : N) (l : list 
   | [] => Some []
   | v :: t =>
       let here :=
-        if negb (contains v db) || (ddt && match ti with Some k => k =? i | None => false end)
+        if negb (contains v db) || (ddt && match ti with Some k => k <=? i | None => false end)
         then Some [v]
         else match split v db with SplitOk parts => Some parts | _ => None end in
       match here, delimit_go ddt db ti (i + 1) t with
@@ -358,6 +358,7 @@ Definition parse_long_arg (flag : bytes) (flag_utf8 : bool) (value : option byte
     | Some a => Some a
     | None => if is_set s_infer_long c then
                 first_unique (filter_map (fun a =>
+                   if a_is_positional a then None else    (* positionals have no long keys (repaired) *)
                    match a_long a with
                    | Some l => if is_prefix flag l then Some a
                                else if existsb (fun p => is_prefix flag (fst p)) (a_aliases a) then Some a else None
